@@ -109,7 +109,7 @@ def run_admin(cmd, kind, opt, stdin_lines, typed, seed, device=None, script=None
 
 def c_opts(opt):
     def ob(x):
-        return "None" if x is None else "(Some %s)" % c_bytes(x.encode("latin1"))
+        return "None" if x is None else "(Some %s)" % c_bytes(x.encode("utf-8"))
     return "(mkOpts %s %s %s %s %s %s)" % (ob(opt.pin), ob(opt.new_pin), c_bool(opt.any_pin), c_bool(opt.no_unlock),
                                            c_bool(opt.no_exec), c_bool(opt.output_file_path is not None))
 
